@@ -29,7 +29,10 @@ def run(ctx):
                 "(normalised type-checked HIR); a member that deviates from its siblings does something the Rust API call "
                 "they all wrap does not. Reviewed deviations are listed with their reason.")
     ns = effi.check_siblings(ctx, F)
-    ctx.floor("E-FFI.siblings", "groups of sibling C functions compared", ns, 65)
+    ctx.floor("E-FFI.siblings", "groups of sibling C functions, conversions and constants compared", ns, 78)
+    ctx.explain("E-FFI.empty: the EMPTY / INVALID constants the C interface hands out for 'no result' have zero length / "
+                "capacity fields and null pointers (C callers test exactly these fields).")
+    effi.check_empty_consts(ctx, F)
     st = elin.run(ctx, F, crates=("oxidd_ffi_c",), skip_guard_table=True)
     ctx.floor("E-LIN", "FFI bodies analysed", st["bodies"], 300)
     eunits.run(ctx, F, crates=("oxidd_ffi_c",))
